@@ -33,6 +33,9 @@ func init() {
 
 const poisonMark = 6
 
+// c14Stuck counts lookups that never came back
+var c14Stuck int
+
 func resolveErrClass(err error) string {
 	switch {
 	case err == nil:
@@ -149,6 +152,23 @@ func (z *zoneGen) addrs(name string) {
 		k := r.IntN(8)
 		if len(name) > 235 && k == 2 {
 			k = 3 // derived names would exceed 255 octets
+		}
+		if k == 3 && r.IntN(2) == 0 && len(name) <= 235 && c14Stuck == 0 {
+			// the CNAME records of the answer form a cycle through the asked name (x CNAME x, or a ring): a
+			// forwarder that does not look, or a hostile server. One pass over the section, no addresses.
+			z.shape["cname-cycle"] = true
+			ring := []string{name}
+			for i := 0; i < r.IntN(3); i++ {
+				ring = append(ring, fmt.Sprintf("ring%d.%s", i, name))
+			}
+			for i := range ring {
+				ans = append(ans, zoneh.Ans{Owner: ring[i], Type: 5, TTL: uint32(5 + r.IntN(60)), Name: ring[(i+1)%len(ring)]})
+			}
+			if r.IntN(2) == 0 {
+				ans = append(ans, mk("elsewhere."+name, false))
+			}
+			z.u[zoneh.Key{Name: name, Type: typ}] = zoneh.Resp{Answers: ans}
+			continue
 		}
 		switch k {
 		case 0: // nothing
@@ -442,7 +462,31 @@ func genC14(env *core.Env, emit func(core.Case)) {
 			}()
 			ctx, cancel := context.WithTimeout(context.Background(), 10*time.Second)
 			defer cancel()
-			res, rerr = resolver.Resolve(ctx, input)
+			// under a watchdog: a lookup that neither returns nor reacts to its context is reported, and
+			// the zone shape that provoked it is not generated again (its goroutine cannot be reclaimed)
+			type out struct {
+				res ech.ResolveResult
+				err error
+				pan string
+			}
+			done := make(chan out, 1)
+			go func() {
+				var o out
+				defer func() {
+					if rec := recover(); rec != nil {
+						o.pan = fmt.Sprint(rec)
+					}
+					done <- o
+				}()
+				o.res, o.err = resolver.Resolve(ctx, input)
+			}()
+			select {
+			case o := <-done:
+				res, rerr, panicked = o.res, o.err, o.pan
+			case <-time.After(14 * time.Second):
+				c14Stuck++
+				panicked = "Resolve is still running 4 s after its context's deadline (10 s): it neither returns nor reacts to the context"
+			}
 		}()
 		log := srv.TakeLog()
 		var lt []string
